@@ -111,8 +111,8 @@ ENTRIES = [
     N('exceeded-if-form', R, "        return self._num_redirects > self._max_redirects", "        if self._max_redirects < self._num_redirects:\n            return True\n        return False"),
     N('load-local', R, "        if self.next_location(raw=True):\n            self._num_redirects += 1", "        location = self.next_location(raw=True)\n\n        if not location:\n            return\n\n        self._num_redirects += 1"),
     N('redirect-renamed-locals', W, TRY_BLOCK, TRY_BLOCK.replace('url', 'target').replace('Redirect location', 'Redirect target'),
-      more=[(W, "                request = self._original_request.copy()\n                request.url = url\n            else:\n                request = self._request_factory(url)",
-             "                request = self._original_request.copy()\n                request.url = target\n            else:\n                request = self._request_factory(target)")]),
+      more=[(W, "                request.url = url\n", "                request.url = target\n"),
+            (W, "                request = self._request_factory(url)", "                request = self._request_factory(target)")]),
     N('limit-test-nested', W, "        if self._redirect_tracker.exceeded():\n            raise ProtocolError('Too many redirects.')\n",
       "        too_many = self._redirect_tracker.exceeded()\n\n        if not too_many:\n            _logger.debug('Within the redirect limit.')\n        else:\n            raise ProtocolError('Too many redirects.')\n"),
     N('auth-guard-ne', W, "        if self._loop_type == LoopType.authentication:\n            _logger.warning(_('Unable to authenticate.'))\n            self._next_request = None\n            self._loop_type = LoopType.normal\n            return\n\n        self._add_basic_auth_header(self._next_request)\n        self._loop_type = LoopType.authentication\n        self._hostnames_with_auth.add(self._next_request.url_info.hostname_with_port)",
